@@ -79,20 +79,20 @@ Proof. exact @indexed_sum. Qed.
 
 (* END TO END, /repo today: for ANY bracketing e, any history of evaluations / visualize calls / core
    changes under any schedule, every outcome is the one for the analyses of e in the order written ... *)
-Theorem C15_sum : forall (S : Type) (lik vlik : nat -> S -> res) (e : expr) (fm : bool)
+Theorem C15_sum : forall (S : Type) (lik vlik : nat -> S -> res) (modf : Z -> item -> item) (e : expr) (fm : bool)
     (ops : list (op (X := S * list S))),
   nofree e = true -> is_leaf e = false ->
-  Forall2 (out_ok (item_lik lik) (item_lik vlik) (spec_items (spec_kind (leaves e)) (leaves e)))
-          (calls ops)
-          (snd (run (item_lik lik) (item_lik vlik) true fm (items_of (eval cfg_now e)) st_init ops)).
+  Forall2 (out_ok (item_lik lik) (item_lik vlik))
+          (trace modf (spec_items (spec_kind (leaves e)) (leaves e)) ops)
+          (snd (run (item_lik lik) (item_lik vlik) modf true fm (items_of (eval cfg_now e)) st_init ops)).
 Proof. exact @sum_end_to_end. Qed.
 
-Theorem C15_sum_free : forall (S : Type) (lik vlik : nat -> S -> res) (e : expr) (fm : bool)
+Theorem C15_sum_free : forall (S : Type) (lik vlik : nat -> S -> res) (modf : Z -> item -> item) (e : expr) (fm : bool)
     (ops : list (op (X := S * list S))),
   nofree e = true -> is_leaf e = false ->
-  Forall2 (out_ok (item_lik lik) (item_lik vlik) (spec_items KFree (leaves e)))
-          (calls ops)
-          (snd (run (item_lik lik) (item_lik vlik) true fm (items_of (eval cfg_now (Free e))) st_init ops)).
+  Forall2 (out_ok (item_lik lik) (item_lik vlik))
+          (trace modf (spec_items KFree (leaves e)) ops)
+          (snd (run (item_lik lik) (item_lik vlik) modf true fm (items_of (eval cfg_now (Free e))) st_init ops)).
 Proof. exact @free_end_to_end. Qed.
 
 (* ... whose value, when nobody raises, is the sum over the written analyses of their likelihood on
@@ -125,36 +125,43 @@ Proof. exact @pool_call_clean. Qed.
 
 (* /repo today: every outcome of every history (evaluations and visualize calls with arbitrary
    schedules, raising calls of any exception class, changes of n_cores incl. back to 1 with the old
-   pool kept) is right: the sum, or the exception of one of the raising analyses *)
-Theorem C15_history_free : forall (A X : Type) (ev vis : A -> X -> res) (fm : bool) (l : list A)
+   pool kept, modify_before_fit changing the members in place) is right FOR THE MEMBERS AS THEY ARE WHEN
+   THE CALL IS MADE (`trace`): the sum, or the exception of one of the raising analyses.  In particular
+   a pool used after modify_before_fit evaluates the modified members: the combined analysis is rebuilt *)
+Theorem C15_history_free : forall (A X : Type) (ev vis : A -> X -> res) (modf : Z -> A -> A) (fm : bool) (l : list A)
     (ops : list (op (X := X))),
-  Forall2 (out_ok ev vis l) (calls ops) (snd (run ev vis true fm l st_init ops)).
+  Forall2 (out_ok ev vis) (trace modf l ops) (snd (run ev vis modf true fm l st_init ops)).
 Proof. exact @history_free_now. Qed.
 
 (* when the raising analyses of each call agree on the exception class, the answers are exactly the
    serial ones ... *)
-Theorem C15_history_answers : forall (A X : Type) (ev vis : A -> X -> res) (fm : bool) (l : list A)
+Theorem C15_history_answers : forall (A X : Type) (ev vis : A -> X -> res) (modf : Z -> A -> A) (fm : bool) (l : list A)
     (ops : list (op (X := X))),
-  Forall (call_uniform ev vis l) ops ->
-  map out_ans (snd (run ev vis true fm l st_init ops)) = map (call_spec ev vis l) (calls ops).
+  Forall (call_uniform ev vis) (trace modf l ops) ->
+  map out_ans (snd (run ev vis modf true fm l st_init ops)) = map (call_spec ev vis) (trace modf l ops).
 Proof. exact @history_answers_now. Qed.
 
 (* ... hence independent of the number of cores, the schedules and whatever happened before *)
-Theorem C15_cores_independent : forall (A X : Type) (ev vis : A -> X -> res) (fm fm' : bool) (l : list A)
-    (ops ops' : list (op (X := X))),
-  Forall (call_uniform ev vis l) ops -> Forall (call_uniform ev vis l) ops' ->
-  map erase (calls ops) = map erase (calls ops') ->
-  map out_ans (snd (run ev vis true fm l st_init ops)) = map out_ans (snd (run ev vis true fm' l st_init ops')).
+Theorem C15_cores_independent : forall (A X : Type) (ev vis : A -> X -> res) (modf : Z -> A -> A) (fm fm' : bool)
+    (l : list A) (ops ops' : list (op (X := X))),
+  Forall (call_uniform ev vis) (trace modf l ops) -> Forall (call_uniform ev vis) (trace modf l ops') ->
+  map erase (trace modf l ops) = map erase (trace modf l ops') ->
+  map out_ans (snd (run ev vis modf true fm l st_init ops)) = map out_ans (snd (run ev vis modf true fm' l st_init ops')).
 Proof. exact @cores_independent_now. Qed.
 
+(* the pool of a rebuilt combined analysis holds the modified members *)
+Theorem C15_rebuilt_pool_is_current : forall (A : Type) (l : list A) (c0 : nat),
+  clean l (set_cores l (mkSt c0 false [] []) c0).
+Proof. exact @clean_rebuilt. Qed.
+
 (* historical results(): the same for every call not preceded by a raising call of the same pool *)
-Theorem C15_hist_history_free_partial : forall (A X : Type) (ev vis : A -> X -> res) (drain fm : bool) (l : list A)
-    (ops : list (op (X := X))),
-  Forall2 (meets ev vis l) (guarded ev vis drain l 1 false false ops) (snd (run ev vis drain fm l st_init ops)).
+Theorem C15_hist_history_free_partial : forall (A X : Type) (ev vis : A -> X -> res) (modf : Z -> A -> A) (drain fm : bool)
+    (l : list A) (ops : list (op (X := X))),
+  Forall2 (meets ev vis) (guarded ev vis modf drain l 1 false false ops) (snd (run ev vis modf drain fm l st_init ops)).
 Proof. exact @history_free_partial. Qed.
 
 Theorem C15_hist_history_free_refuted : exists (l : list nat) (ops : list (op (X := Z))),
-  ~ Forall2 (out_ok w_ev w_vis l) (calls ops) (snd (run w_ev w_vis false false l st_init ops)).
+  ~ Forall2 (out_ok w_ev w_vis) (trace w_modf l ops) (snd (run w_ev w_vis w_modf false false l st_init ops)).
 Proof. exact history_free_refuted. Qed.
 
 (* ---- C15_free_params: the fitted model --------------------------------------------------------- *)
